@@ -100,6 +100,30 @@ def load_known(pid):
     return out
 
 
+def _replay_one(modname, path):
+    import importlib
+    st = Stats()
+    doc = json.load(open(path))
+    case = doc.get("case", doc)
+    msg = importlib.import_module(modname).replay(case)
+    st.evaluations = 1
+    if msg:
+        st.violations.append({"case": case, "msg": "saved case %s: %s" % (os.path.basename(path), msg), "key": "regression"})
+    return st
+
+
+def replay_regressions(ctx, replay_fn):
+    """seconds-long replay tier: saved counterexamples of earlier (seeded or repaired) defects, re-executed
+    without the generator, each in a fresh process (module-level backend state must not leak between cases);
+    each must hold on the tree under test"""
+    import glob
+    files = sorted(glob.glob(os.path.join(ROOT, "regressions", ctx.pid, "*.json")))
+    if files:
+        st = run_shards("harness.core", "_replay_one", [dict(modname="harness.checks." + ctx.pid.lower(), path=f) for f in files])
+        ctx.stats.violations.extend(st.violations)
+    ctx.stats.extra["saved_cases_replayed"] = len(files)
+
+
 # ---------------------------------------------------------------------------
 # hypothesis driving
 
@@ -231,6 +255,43 @@ def run_shards(modname, fn, kwargs_list, jobs=None):
         if status != "ok":
             raise HarnessError(payload)
         total.merge_json(payload)
+    return total
+
+
+def run_shards_optimised(modname, fn, kwargs_list):
+    """Run shards in fresh interpreters started with `-O` (assert statements stripped): a configuration in which the
+    library must behave the same. Each shard is a subprocess; results come back as JSON."""
+    import subprocess
+    total = Stats()
+    procs = []
+    for kw in kwargs_list:
+        code = ("import sys, json; from harness import core; "
+                "r = core._shard_entry((%r, %r, json.loads(sys.stdin.read()))); print('\\nSHARD-RESULT ' + json.dumps(r))" % (modname, fn))
+        envv = dict(os.environ)
+        envv["PYTHONPATH"] = os.pathsep.join([ROOT, os.environ.get("VERIF_REPO", "/repo")] + [p for p in os.environ.get("PYTHONPATH", "").split(os.pathsep) if p])
+        procs.append(subprocess.Popen([sys.executable, "-O", "-c", code], stdin=subprocess.PIPE, stdout=subprocess.PIPE,
+                                      stderr=subprocess.PIPE, text=True, cwd=ROOT, env=envv))
+        procs[-1].stdin.write(json.dumps(kw))
+        procs[-1].stdin.close()
+    for pr in procs:
+        out = pr.stdout.read()
+        err = pr.stderr.read()
+        pr.wait()
+        res = None
+        for ln in out.splitlines():
+            if ln.startswith("SHARD-RESULT "):
+                res = json.loads(ln[len("SHARD-RESULT "):])
+        if res is None:
+            raise HarnessError("optimised-interpreter shard %s.%s produced no result: %s" % (modname, fn, err[-400:]))
+        status, payload = res
+        if status != "ok":
+            raise HarnessError(payload)
+        for v in payload["violations"]:
+            v["msg"] = "[python -O] " + v["msg"]
+            if isinstance(v.get("case"), dict):
+                v["case"]["python_optimise"] = True
+        total.merge_json(payload)
+    total.labels = collections.Counter({"python -O:" + k: v for k, v in total.labels.items()})
     return total
 
 
